@@ -1,4 +1,5 @@
 import FpgoVerif.Proofs.C02Int
+import FpgoVerif.Proofs.C02Float
 /-! Property theorems for C02 — "Maybe numeric conversions are value-preserving or fail; never silently wrap".
 
     All theorems are about `convGo` = the evaluator `conv` applied to `Gen.convTable`, the table the
@@ -35,6 +36,50 @@ theorem C02_int_to_int (tgt src : Ty) (ht : tgt ∈ intTys) (hs : src ∈ intTys
   have hc := h' src hs
   have := intBodyOK_sound goStrconv Gen.convTable 4 tgt src lo hi hr hc z h1 h2
   cases src <;> simpa [specOK, convGo, convFuel] using this
+
+/-! ### float → integer -/
+
+/-- integer targets whose float clauses are direct (guard + `math.Round` + cast); `ToUintptr` goes through `ToUint64` -/
+def fltDirectTgts : List Ty := [.int, .int8, .int16, .int32, .int64, .uint, .uint8, .uint16, .uint32, .uint64]
+
+def fltCellOK (tbl : List Case) (tgt : Ty) (is32 : Bool) : Bool :=
+  fltBodyOK tbl tgt is32 (lookup tbl tgt (.ty (fltSrc is32)))
+
+/-- Closing theorem over the regenerated table: every (integer target, float32/float64) cell has a two-sided guard
+    whose bounds — after Go's rounding of the constants to the float type — lie inside the target range and
+    contain the must-succeed range. -/
+theorem C02_table_float_to_int :
+    fltDirectTgts.all (fun tgt => fltCellOK Gen.convTable tgt true && fltCellOK Gen.convTable tgt false) = true := by
+  decide +kernel
+
+/-- Clauses (a), (b), (c) for every float32 (`is32`) / float64 value `x` — NaN, ±Inf, ±0, denormals included —
+    and every integer target except `uintptr`.  `x.wf` holds for every decoded bit pattern (`decode_wf`). -/
+theorem C02_float_to_int (tgt : Ty) (ht : tgt ∈ fltDirectTgts) (is32 : Bool) (x : FVal) (hw : x.wf (fltP is32)) :
+    specOK tgt (.ty (fltSrc is32)) (mkF is32 x) (convGo tgt (.ty (fltSrc is32)) (mkF is32 x)) = true := by
+  have hall := C02_table_float_to_int
+  rw [List.all_eq_true] at hall
+  have hc := hall tgt ht
+  simp only [Bool.and_eq_true] at hc
+  have hcell : fltBodyOK Gen.convTable tgt is32 (lookup Gen.convTable tgt (.ty (fltSrc is32))) = true := by
+    cases is32
+    · exact hc.2
+    · exact hc.1
+  have := fltBodyOK_sound goStrconv Gen.convTable 4 tgt is32 hcell x hw
+  cases is32 <;> simpa [specOK, convGo, convFuel, fltSrc, mkF] using this
+
+/-- … in particular for every IEEE bit pattern. -/
+theorem C02_float64_bits_to_int (tgt : Ty) (ht : tgt ∈ fltDirectTgts) (bits : Nat) :
+    specOK tgt (.ty .float64) (.f64 (decode f64 bits)) (convGo tgt (.ty .float64) (.f64 (decode f64 bits))) = true :=
+  C02_float_to_int tgt ht false (decode f64 bits) (decode_wf f64 (by decide) bits)
+
+theorem C02_float32_bits_to_int (tgt : Ty) (ht : tgt ∈ fltDirectTgts) (bits : Nat) :
+    specOK tgt (.ty .float32) (.f32 (decode f32 bits)) (convGo tgt (.ty .float32) (.f32 (decode f32 bits))) = true :=
+  C02_float_to_int tgt ht true (decode f32 bits) (decode_wf f32 (by decide) bits)
+
+-- 2^63 as a float64 is rejected by ToInt64 (the pinned code accepted it and returned MinInt64)
+example : convGo .int64 (.ty .float64) (.f64 (.fin false 9223372036854775808 0)) = ⟨.i 0, .overflow⟩ := by decide +kernel
+example : convGo .int32 (.ty .float64) (.f64 (.fin false 5 1)) = ⟨.i 3, .ok⟩ := by decide +kernel
+example : (FVal.fin false 5 1).wf 53 := by simp [FVal.wf]
 
 example : specOK .uint8 (.ty .int8) (.i (-1)) (convGo .uint8 (.ty .int8) (.i (-1))) = true := by decide +kernel
 example : convGo .uint8 (.ty .int8) (.i (-1)) = ⟨.i 0, .overflow⟩ := by decide +kernel
